@@ -1715,6 +1715,8 @@ class Exec:
             st = {"e": "store", "lv": sym.idx(args[2], u), "op": "=", "val": sym.idx(first, sym.sub(sym.sub(count, I(1)), u)), "l": e["l"], "t": "", "ct": ""}
         else:
             st = {"e": "store", "lv": sym.idx(args[2], u), "op": "=", "val": sym.idx(first, u), "l": e["l"], "t": "", "ct": ""}
+        if self._emit_unrolled(st, u, count, out):
+            return True
         out.append({"e": "loop", "var": u, "lo": ZERO, "cmp": "<", "hi": self._clamp(count), "step": I(1), "body": [st], "l": e["l"],
                     "name": "u", "algorithm": name})
         self.forget_stores_in([st])
@@ -1761,8 +1763,24 @@ class Exec:
             st = {"e": "store", "lv": sym.idx(dst, u), "op": "=", "val": ZERO, "l": e["l"], "t": "", "ct": ""}
         else:
             st = {"e": "store", "lv": sym.idx(dst, u), "op": "=", "val": sym.idx(strip(args[1]), u), "l": e["l"], "t": "", "ct": ""}
+        if self._emit_unrolled(st, u, count, out):
+            return True
         out.append({"e": "loop", "var": u, "lo": ZERO, "cmp": "<", "hi": self._clamp(count), "step": I(1), "body": [st], "l": e["l"],
                     "name": "u", "algorithm": name})
+        self.forget_stores_in([st])
+        return True
+
+    def _emit_unrolled(self, st, u, count, out):
+        """with concrete dimensions (a rule interprets the function for small sizes) an element loop of constant length is its
+        element statements"""
+        if not self.unroll:
+            return False
+        cv = sym.const_value(sym.fold(count)) if hasattr(sym, "fold") else sym.const_value(count)
+        if cv is None or cv > 4096:
+            return False
+        for q in range(max(cv, 0)):
+            m = {u: I(q)}
+            out.append(dict(st, lv=sym.subst(st["lv"], m), val=sym.subst(st["val"], m) if isinstance(st["val"], tuple) else st["val"]))
         self.forget_stores_in([st])
         return True
 
